@@ -18,6 +18,13 @@ CLAIMS = {
             "DESIGN.md §4 C09", TRUST),
 }
 
+CLAIMS["C12"] = ("other", "call-graph effect analysis + loop progress-witness rule over MIR",
+    "Whole structural content: from every read entry point (get/get_key_value/contains/iter*/next/len/is_empty/eq/set relations/Index/"
+    "Debug/Serialize on all four facades and the iterator types) no lock, park, yield, sleep, spin or Once primitive, no retire/free and "
+    "no shared write except the reader-count RMWs on the tree-bin lock word is reachable through flurry's resolved call graph; every cycle "
+    "of every loop on such a path has a progress witness, so a read cannot wait for another thread. Not decided: a numeric step bound.",
+    "DESIGN.md §4 C12", TRUST + " seize enter/protect/Drop for Guard, the global allocator and user code (Hash/Ord/Eq/closures) are outside the property.")
+
 NOT_APPLICABLE = {
     "C02": "Quantifies over all operation sequences x hashers x capacities and asserts equality of run-time values (return values, "
            "contents) with a reference map; no path-, type- or call-graph-shaped clause carries it. Its only structural clause "
